@@ -55,6 +55,26 @@ def instances(rng, nodes, imps):
                                              _case(nodes, imps, "should", imp, True, sk, subs, ok, objs),
                                              _case(nodes, imps, "not", imp, False, sk, subs, ok, objs)],
                     lambda v: any(x.startswith("ERR") for x in v) or ((v[0] == "PASS") == (v[1] == "PASS" and v[2] == "PASS"))))
+    # the same laws with a regular expression on the subject side (its matches may be nested: a package and modules below it)
+    import re as _re
+
+    base = rng.choice(nodes)
+    pat = rng.choice([_re.escape(base) + r"(\..*)?$", _re.escape(base.split(".")[0]) + ".*", _re.escape(base[: max(1, len(base) - 1)]) + ".*"])
+    tab = [(pat, [m for m in nodes if _re.match(pat, m)])]
+
+    def rc(verb, imp, exc, regex_as_subject=True):
+        c = _case(nodes, imps, verb, imp, exc, "R", pat, ok, objs) if regex_as_subject else _case(nodes, imps, verb, imp, exc, ok, objs, "R", pat)
+        c["mtab"] = tab
+        return c
+
+    if tab[0][1]:
+        for imp in (True, False):
+            out.append(("decomposition-regex", [rc("only", imp, False), rc("should", imp, False), rc("not", imp, True)],
+                        lambda v: any(x.startswith("ERR") for x in v) or ((v[0] == "PASS") == (v[1] == "PASS" and v[2] == "PASS"))))
+            out.append(("decomposition-except-regex", [rc("only", imp, True), rc("should", imp, True), rc("not", imp, False)],
+                        lambda v: any(x.startswith("ERR") for x in v) or ((v[0] == "PASS") == (v[1] == "PASS" and v[2] == "PASS"))))
+        for verb in ("should", "not"):
+            out.append(("duality-regex", [rc(verb, True, False), rc(verb, False, False, regex_as_subject=False)], lambda v: v[0] == v[1]))
     # alias ('anything' = except itself); single subject so that the de-duplication is not involved
     for imp in (True, False):
         out.append(("alias", [_case(nodes, imps, "not", imp, False, sk, s1, sk, s1, anything=True),
